@@ -19,7 +19,7 @@ from . import common
 
 ID = "C18"
 RUNS = {"quick": 60000, "thorough": 3000000}
-TIME = {"quick": 75, "thorough": 1500}
+TIME = {"quick": 150, "thorough": 1500}
 RULE_TEXT = (
     "case kinds: csv = seeded table (1-6 rank columns, optional id/weight/extra columns at any position, delimiter in , ; | tab, CRLF/LF, repeated rows, short ballots with "
     "blank cells, names with spaces/quotes/commas/unicode) + rank_cols (all, or any ordered subset) + one optional injected fault; scot = seeded Scottish-format file "
@@ -185,7 +185,7 @@ def gen_csv(rng):
     fault = G.wchoice(rng, [(None, 70), ("missing", 5), ("zero_byte", 4), ("header_only", 4), ("blank_id", 8 if has_id else 0), ("dup_id", 8 if has_id else 0)])
     case = {"kind": "csv", "header": header, "layout": [t for t, _ in layout], "rows": rows, "delim": delim, "crlf": rng.random() < 0.3,
             "rank_cols": rank_cols, "id_col": [t for t, _ in layout].index("id") if has_id else None,
-            "weight_col": [t for t, _ in layout].index("weight") if has_w else None, "fault": fault, "fault_row": rng.randrange(nrows), "fault_row2": rng.randrange(nrows), "id_style": id_style if has_id else None}
+            "reuse": rng.random() < 0.3, "weight_col": [t for t, _ in layout].index("weight") if has_w else None, "fault": fault, "fault_row": rng.randrange(nrows), "fault_row2": rng.randrange(nrows), "id_style": id_style if has_id else None}
     return case
 
 
@@ -271,7 +271,14 @@ def run_csv(case, scratch):
     prof, exc = None, None
     with seams.quiet():
         try:
-            prof = load_csv(path, list(case["rank_cols"]), **kw)
+            rc = list(case["rank_cols"])
+            if case.get("reuse"):
+                # one column configuration serving two loads: the very same argument objects are passed twice
+                try:
+                    load_csv(path, rc, **kw)
+                except Exception:
+                    pass
+            prof = load_csv(path, rc, **kw)
         except seams.WallAlarm:
             raise
         except Exception as ex:
@@ -481,6 +488,8 @@ def execute(case, trace=False):
             faults["names_with_quotes_or_delimiters"] = 1
         if len({tuple(r) for r in case["rows"]}) < len(case["rows"]):
             faults["repeated_rows"] = 1
+        if case.get("reuse"):
+            faults["argument_objects_reused_for_a_second_load"] = 1
         if any(h == "" for h in case["header"]):
             faults["blank_header_cells"] = 1
         if len(set(case["header"])) < len(case["header"]):
